@@ -75,6 +75,20 @@ def empty_population_specs(ctx):
     return specs
 
 
+def fixed_beta_specs(ctx):
+    """A fixed scalar confidence parameter for the search acquisition function (search_acq_fcn = ('acq_LCB', c)), including c = 0 (plain GP
+    mean): the candidates must be ranked by mean - c * sd for THAT c."""
+    from .. import gen
+    rng = ctx.sub_rng("c18beta")
+    specs = []
+    for c in ("0", "0.0", "2.0", "np.float64(1.5)") + (() if ctx.quick else ("np.float64(0.0)", "0.5", "3", "np.float32(4.0)")):
+        sp = gen.make_spec(rng, D=rng.choice([1, 2, 3]), geom=rng.choice(["box", "tight"]), mode=rng.choice(["det", "det", "decl"]), cons=None, target="quad")
+        sp["options"] = {"n_search": 32, "max_fun_evals": 40 if sp["mode"] == "det" else 70}
+        sp["np_options"] = {"search_acq_fcn": f"('acq_LCB', {c})"}
+        specs.append(sp)
+    return specs
+
+
 def tiny_population_specs(ctx):
     """ES populations of 1-3 candidates (n_search / n_search_iter tiny) with the optimum on or beyond a bound: single candidates land outside the
     mesh-rounded box and have to be projected like any other."""
@@ -93,6 +107,7 @@ def run_level(ctx, rep):
     if not getattr(ctx, "_replaying", False):
         runlevel.with_extra(ctx, "c18empty", lambda: empty_population_specs(ctx))
         runlevel.with_extra(ctx, "c18tiny", lambda: tiny_population_specs(ctx))
+        runlevel.with_extra(ctx, "c18beta", lambda: fixed_beta_specs(ctx))
     if not getattr(ctx, "_replaying", False):
         runlevel.scripted_controller_runs(ctx, "c18script", 8 if ctx.quick else 60, want=("ctl", "filt", "gp"))
     traces = runlevel.get_pool(ctx)
@@ -125,6 +140,18 @@ def run_level(ctx, rep):
                                   f"violate the non-box constraint (the strategy's filter was {'not ' if not e['has_cons'] else ''}handed the constraint function); {tag}", case)
             if k == "ACQ" and e["site"] == "es":
                 stats["es_generations"] += 1
+                # the acquisition values the strategy ranks by are mean - c * sd for the CONFIGURED c (when the search acquisition function is
+                # given a fixed scalar confidence parameter)
+                cfg = (sp.get("np_options") or {}).get("search_acq_fcn")
+                if cfg and "acq_cfg" not in reported:
+                    cval = float(eval(cfg, {"np": np})[1])
+                    stats["fixed_beta_acq_calls"] = stats.get("fixed_beta_acq_calls", 0) + 1
+                    for z, mu, s_ in zip(e["z"], e["mu"], e["s"]):
+                        if all(math.isfinite(v) for v in (z, mu, s_)) and not (abs(z - (mu - cval * s_)) <= 1e-9 * max(1.0, abs(mu), abs(cval * s_))):
+                            reported.add("acq_cfg")
+                            rep.violation("acquisition_as_configured", SITE_E, f"search_acq_fcn = {cfg}: a candidate with GP mean {mu} and SD {s_} is ranked by the value {z}, "
+                                          f"not by mean - {cval} * SD = {mu - cval * s_}; {tag}", case)
+                            break
                 if e["n"] == 0:
                     stats["empty_generations"] += 1
                 if e["xi"] is None:
